@@ -1,29 +1,23 @@
-"""Per-property driver configuration (binary, level, rule text, assumptions)."""
+"""Per-property driver configuration, loaded from lib/props/<ID>.json.
+
+keys: bin, level (exploration|fault_enumeration), rule, assumptions[], technique?, level_text?,
+      timeout{quick,thorough}?, max_shards?, thorough_flavours[]? (shipped|asan), flavour_scale?
+"""
+import glob, json, os
+
+_D = os.path.join(os.path.dirname(os.path.abspath(__file__)), "props")
 
 COMMON_ASSUME = [
     "harness builds /repo's working tree with --cfg hickory_dns_verif, opt-level 2, debug-assertions and overflow-checks on",
     "a verdict covers only the executions observed in this run (seeded generation; VERIF_SEED selects the stream)",
 ]
 
-PROPS = {
-    "C01": {
-        "bin": "c01",
-        "level": "exploration",
-        "rule": "inputs: generated valid wire messages (all record types, compression), structure-aware mutants, every "
-                "truncation point of small messages, raw random bytes (0..65535), constructed hostile shapes (pointer chains, "
-                "255/256-octet names through pointers, label 63/64, lying RDLENGTH, count 65535), per-type RDATA valid/"
-                "mutated/truncated. Each input is fed to every decode entry point (Message::from_vec, Request::from_bytes, "
-                "Header/Queries/MessageRequest split path, DnsResponse::from_buffer, Record::read and Name::read at several "
-                "offsets, RData::read for every type, TSigner::verify_message_byte on bytes that parse) under the panic "
-                "monitor and the H1 decoder step counter (steps <= 128*len+4096). A case is one (entry point, input) "
-                "evaluation; non-trivial/distinct = distinct input byte strings longer than the 12-byte header.",
-        "assumptions": COMMON_ASSUME + [
-            "linear-time clause judged on decoder primitive operations counted by hook H1, not on wall-clock",
-            "TSIG verification is driven only on bytes that already passed the full message parse, as its real callers do",
-        ],
-        "thorough_flavours": ["shipped"],
-    },
-}
+PROPS = {}
+for _p in sorted(glob.glob(os.path.join(_D, "C*.json"))):
+    with open(_p) as _f:
+        _s = json.load(_f)
+    _s["assumptions"] = COMMON_ASSUME + [a for a in _s.get("assumptions", []) if a not in COMMON_ASSUME]
+    PROPS[os.path.basename(_p)[:-5]] = _s
 
 LEVEL_TEXT = {
     "exploration": "held on the executions observed: seeded, structure-aware generation of inputs/histories driven through the real code with an independent oracle judging every execution; no claim beyond what was run",
